@@ -267,11 +267,17 @@ def run(repo, rep, tier):
         if isinstance(e, ast.Name):
             return 1 if e.id in dirvars else 0
         if isinstance(e, ast.Subscript):
+            if repo.const(fi.module, e.slice) == D:
+                return 1                      # x["dir"]: the direction values themselves
             return absdeg(e.value)
         if isinstance(e, ast.Attribute):
+            if e.attr == D:
+                return 1
             return absdeg(e.value)
         if isinstance(e, ast.Call):
             nm = call_name(e).split(".")[-1] if call_name(e) else ""
+            if nm in ("list", "set", "sorted", "tuple", "unique", "array", "asarray", "frozenset") and e.args:
+                return absdeg(e.args[0])
             if isinstance(e.func, ast.Attribute) and e.func.attr in ("max", "min", "item", "astype", "mean") and not e.args:
                 return absdeg(e.func.value)
             if nm in ("max", "min", "float", "abs", "absolute", "amax", "amin", "asarray", "array") and e.args:
@@ -294,7 +300,7 @@ def run(repo, rep, tier):
                 return 0
             return None
         return None
-    if dirvars and isinstance(lhs, ast.Call) and lhs.args:
+    if isinstance(lhs, ast.Call) and lhs.args:
         dg = absdeg(lhs.args[0])
         if dg is None:
             raise AnalysisError(f"smooth_spec: circularity test {unparse(lhs)[:60]} not understood (direction-shift degree)")
@@ -305,7 +311,7 @@ def run(repo, rep, tier):
                      "and smoothing no longer commutes with circular shifts of the direction axis")
         else:
             rep.ok("R-C16-2", f"{fi.file}:{circ[0].lineno} smooth_spec", unparse(lhs.args[0])[:80], "built from direction differences only: independent of the grid's origin")
-    elif not dirvars:
+    elif not dirvars and not (isinstance(lhs, ast.Call) and lhs.args):
         raise AnalysisError("smooth_spec: direction values variable not identified")
     guard = guards_
     if guard and all(pads[k][0] in list(ast.walk(guard[0])) for k in pads):
